@@ -173,14 +173,7 @@ func (c *Ctx) specCall(name string, e *ast.CallExpr) (Value, bool) {
 		bv := BVar(fmt.Sprintf("%s!%d", id.Name, bvarSeq), SInt)
 		n := c.withVar(id.Name, Scalar(bv, types.Typ[types.Int]))
 		body := n.eval(e.Args[3]).S
-		key := strings.ReplaceAll(body.String(), bv.Name, "$i")
-		cd := x.counts[key]
-		if cd == nil {
-			cd = &countDef{name: fmt.Sprintf("cnt!%d", len(x.counts)+1), key: key,
-				body: func(i *Term) *Term { return Subst(body, map[*Term]*Term{bv: i}) }}
-			x.counts[key] = cd
-		}
-		return Scalar(App(cd.name, SInt, lo, hi), types.Typ[types.Int]), true
+		return Scalar(x.countTerm(body, bv, lo, hi, 0), types.Typ[types.Int]), true
 	case "unchanged":
 		o := c.old
 		if o == nil {
@@ -254,4 +247,94 @@ func (c *Ctx) specCall(name string, e *ast.CallExpr) (Value, bool) {
 		return Scalar(valueEq(a, b), boolT), true
 	}
 	return Value{}, false
+}
+
+// countTerm returns cnt_P(lo,hi) for the predicate P = λbv. body, creating the count
+// function on first use, and records frame facts: counting over store(A,k,v) or
+// ite(c,A,B) is related to counting over A (and B).
+func (x *Exec) countTerm(body, bv, lo, hi *Term, depth int) *Term {
+	key := strings.ReplaceAll(body.String(), bv.Name, "$i")
+	cd := x.counts[key]
+	if cd == nil {
+		cd = &countDef{name: fmt.Sprintf("cnt!%d", len(x.counts)+1), key: key,
+			body: func(i *Term) *Term { return Subst(body, map[*Term]*Term{bv: i}) }}
+		x.counts[key] = cd
+	}
+	t := App(cd.name, SInt, lo, hi)
+	if depth > 6 {
+		return t
+	}
+	// find an array-valued store / ite that is only ever read at the bound index
+	var cand *Term
+	seen := map[int]bool{}
+	var find func(u *Term)
+	find = func(u *Term) {
+		if cand != nil || seen[u.id] {
+			return
+		}
+		seen[u.id] = true
+		if u.Op == "select" && u.Args[1] == bv && (u.Args[0].Op == "store" || u.Args[0].Op == "ite") && !u.Args[0].bound {
+			if onlySelectedAt(body, u.Args[0], bv) {
+				cand = u.Args[0]
+				return
+			}
+		}
+		for _, a := range u.Args {
+			find(a)
+		}
+	}
+	find(body)
+	if cand == nil {
+		return t
+	}
+	in := func(k *Term) *Term { return And(Le(lo, k), Lt(k, hi)) }
+	b2i := func(b *Term) *Term { return Ite(b, IntLit(1), IntLit(0)) }
+	switch cand.Op {
+	case "store":
+		A, k := cand.Args[0], cand.Args[1]
+		if k.bound {
+			return t
+		}
+		body0 := Subst(body, map[*Term]*Term{cand: A})
+		t0 := x.countTerm(body0, bv, lo, hi, depth+1)
+		pNew := Subst(body, map[*Term]*Term{bv: k})
+		pOld := Subst(body0, map[*Term]*Term{bv: k})
+		x.addFact(t, Eq(t, Add(Sub(t0, b2i(And(in(k), pOld))), b2i(And(in(k), pNew)))))
+	case "ite":
+		cnd, A, B := cand.Args[0], cand.Args[1], cand.Args[2]
+		if cnd.bound {
+			return t
+		}
+		tA := x.countTerm(Subst(body, map[*Term]*Term{cand: A}), bv, lo, hi, depth+1)
+		tB := x.countTerm(Subst(body, map[*Term]*Term{cand: B}), bv, lo, hi, depth+1)
+		x.addFact(t, Eq(t, Ite(cnd, tA, tB)))
+	}
+	return t
+}
+
+// onlySelectedAt: every occurrence of arr inside body is as select(arr, bv).
+func onlySelectedAt(body, arr, bv *Term) bool {
+	ok := true
+	seen := map[int]bool{}
+	var walk func(u *Term, parentSel bool)
+	walk = func(u *Term, parentSel bool) {
+		if !ok {
+			return
+		}
+		if u == arr {
+			if !parentSel {
+				ok = false
+			}
+			return
+		}
+		if seen[u.id] {
+			return
+		}
+		seen[u.id] = true
+		for i, a := range u.Args {
+			walk(a, u.Op == "select" && i == 0 && u.Args[1] == bv)
+		}
+	}
+	walk(body, false)
+	return ok
 }
